@@ -41,7 +41,7 @@ use query_engine::physical::PhysicalOperator;
 use query_engine::{ExecutionContext, QueryError};
 use serde_json::{json, Value};
 use std::io::{BufRead, BufReader, Write};
-use std::process::{Child, ChildStdin, ChildStdout, Command, Stdio};
+use std::process::{Child, ChildStdin, Command, Stdio};
 use std::sync::Arc;
 
 /// (RAYON_NUM_THREADS, tokio workers) of the children
@@ -174,7 +174,15 @@ fn recut(t: &TableSpec, k: usize) -> Vec<RecordBatch> {
 }
 
 fn child_sql(c: &Value) -> Value {
-    let cat = Catalog::from_case(c);
+    let mut cat = Catalog::from_case(c);
+    // neutraliser of finding C07-F2 (= C21-F8): the same statement over the same tables with every NULL of an integer
+    // column replaced by a fresh non-NULL value
+    if c["neutral"].as_str() == Some("no_int_null") {
+        for t in cat.tables.iter_mut() {
+            let int_cols: Vec<usize> = t.cols.iter().enumerate().filter(|(_, c)| matches!(c.cty.name(), "i64" | "i32")).map(|(i, _)| i).collect();
+            for row in t.rows.iter_mut() { for &ci in &int_cols { if row[ci].is_null() { row[ci] = Val::I(7777); } } }
+        }
+    }
     let sql = c["sql"].as_str().unwrap_or("").to_string();
     let k = c["recut"].as_u64().unwrap_or(7) as usize;
     let ordered = c["plan"].get("sort").is_some() || c["plan"].get("limit").is_some();
@@ -297,29 +305,37 @@ fn child_main() {
 }
 
 // ------------------------------------------------------------------------------------------------ parent side
-struct Kid { proc: Child, inp: ChildStdin, out: BufReader<ChildStdout>, threads: usize, workers: usize }
+/// A child process = one (rayon threads, tokio workers) configuration.  Guards (LOAD_RULES): the child's address space is
+/// capped at 4 GB (`ulimit -v`, a runaway statement aborts the child instead of eating the machine) and every request has a
+/// wall-clock limit; a child that dies or does not answer in time is killed and replaced, the request reported as `lost`.
+struct Kid { proc: Child, inp: ChildStdin, rx: std::sync::mpsc::Receiver<String>, threads: usize, workers: usize }
 
 fn spawn_kid(threads: usize, workers: usize) -> Kid {
     let exe = std::env::current_exe().expect("exe");
-    let mut proc = Command::new(exe).args(["C07", "--opt", "child=1"])
+    let mut proc = Command::new("sh").arg("-c").arg("ulimit -v 4194304; exec \"$0\" C07 --opt child=1").arg(exe)
         .env("RAYON_NUM_THREADS", threads.to_string()).env("IQE_TOKIO_WORKERS", workers.to_string()).env("QE_IPC_CACHE", "0")
         .stdin(Stdio::piped()).stdout(Stdio::piped()).stderr(Stdio::null()).spawn().expect("child");
     let inp = proc.stdin.take().unwrap();
-    let out = BufReader::new(proc.stdout.take().unwrap());
-    Kid { proc, inp, out, threads, workers }
+    let out = proc.stdout.take().unwrap();
+    let (tx, rx) = std::sync::mpsc::channel::<String>();
+    std::thread::spawn(move || { for l in BufReader::new(out).lines() { match l { Ok(l) => { if tx.send(l).is_err() { break; } } Err(_) => break } } });
+    Kid { proc, inp, rx, threads, workers }
 }
 
 impl Kid {
-    /// one request/response; a dead child is reported and replaced
-    fn ask(&mut self, c: &Value) -> Value {
+    /// one request/response within `limit_s` seconds; `{"lost": why}` if the child died or was too slow (it is replaced)
+    fn ask(&mut self, c: &Value, limit_s: u64) -> Value {
         let ok = writeln!(self.inp, "{}", c).and_then(|_| self.inp.flush()).is_ok();
-        let mut line = String::new();
-        if ok && self.out.read_line(&mut line).unwrap_or(0) > 0 {
-            if let Ok(v) = serde_json::from_str::<Value>(&line) { return v; }
-        }
+        let why = if !ok { "child process died before the request" } else {
+            match self.rx.recv_timeout(std::time::Duration::from_secs(limit_s)) {
+                Ok(line) => { if let Ok(v) = serde_json::from_str::<Value>(&line) { return v; } "child sent an unreadable answer" }
+                Err(std::sync::mpsc::RecvTimeoutError::Timeout) => "no answer within the time limit",
+                Err(_) => "child process died (abort / out of its 4 GB memory cap / stack overflow)",
+            }
+        };
         let _ = self.proc.kill(); let _ = self.proc.wait();
         *self = spawn_kid(self.threads, self.workers);
-        json!({"panic": "child process died (abort / stack overflow) while running this case"})
+        json!({"lost": why})
     }
 }
 
@@ -377,25 +393,63 @@ fn gen_tracker(r: &mut Rng) -> Value {
     json!({"kind": "tracker", "threads": threads, "a": a, "b": b, "acuts": acuts, "bcuts": bcuts, "rank": rank, "mode": *r.pick(&["incr", "serial"])})
 }
 
-/// run one case through the children it needs
-fn run_case(kids: &mut Vec<Kid>, c: &Value) -> Value {
+/// signature part of C07-F2 that is about the data: some integer column holds both a NULL and the value -1
+fn has_null_and_minus_one(c: &Value) -> bool {
+    let empty = vec![];
+    let metas = c["cat"].as_array().unwrap_or(&empty);
+    for (ti, m) in metas.iter().enumerate() {
+        for (ci, col) in m["cols"].as_array().unwrap_or(&empty).iter().enumerate() {
+            if !matches!(col["ty"].as_str(), Some("i64") | Some("i32")) { continue; }
+            let rows = c["tables"][ti].as_array().unwrap_or(&empty);
+            let has_null = rows.iter().any(|r| r[ci].is_null());
+            let has_m1 = rows.iter().any(|r| r[ci]["i"].as_i64() == Some(-1));
+            if has_null && has_m1 { return true; }
+        }
+    }
+    false
+}
+
+/// run one case through the children it needs; `None` = an observation was lost (child died / too slow): the case is dropped
+fn run_case(kids: &mut Vec<Kid>, c: &Value, pre: Option<Value>) -> Option<Value> {
     match c["kind"].as_str().unwrap_or("") {
         "scan" | "ojoin" | "tracker" => {
             let t = c["threads"].as_u64().unwrap_or(1) as usize;
             let i = CHILDREN.iter().position(|x| x.0 == t).unwrap_or(0);
-            kids[i].ask(c)
+            let v = kids[i].ask(c, 60);
+            if v.get("lost").is_some() { None } else { Some(v) }
         }
         "sql" => {
+            // the 1-thread child always, plus the children named by the case (two of the other four)
+            let mut use_kids: Vec<usize> = vec![0];
+            if let Some(a) = c["kids"].as_array() { for x in a { let i = x.as_u64().unwrap_or(0) as usize; if i > 0 && i < kids.len() && !use_kids.contains(&i) { use_kids.push(i); } } }
             let mut runs = serde_json::Map::new(); let mut decl = serde_json::Map::new();
-            for k in kids.iter_mut() {
-                let v = k.ask(c);
+            let mut pre = pre;
+            for i in use_kids {
+                let k = &mut kids[i];
+                // the 1-thread child's answer may already be there (pre-flight of a freshly generated case)
+                let v = if i == 0 && pre.is_some() { pre.take().unwrap() } else { k.ask(c, 40) };
+                if v.get("lost").is_some() { return None; }
                 if let Some(m) = v["runs"].as_object() { for (a, b) in m { runs.insert(a.clone(), b.clone()); } }
-                else { runs.insert(format!("child@t{}w{}", k.threads, k.workers), v.clone()); }
                 if let Some(m) = v["decl"].as_object() { for (a, b) in m { decl.insert(a.clone(), b.clone()); } }
             }
-            json!({"runs": Value::Object(runs), "decl": Value::Object(decl)})
+            let mut out = json!({"runs": Value::Object(runs.clone()), "decl": Value::Object(decl)});
+            // when the configurations disagree, also observe the neutralised variant (attribution of known finding C07-F2)
+            let answers: std::collections::BTreeSet<String> = runs.values().map(|v| v.to_string()).collect();
+            if answers.len() > 1 && has_null_and_minus_one(c) && c.get("neutral").is_none() {
+                let mut c2 = c.clone(); c2["neutral"] = json!("no_int_null");
+                let mut nruns = serde_json::Map::new();
+                let mut ks: Vec<usize> = vec![0];
+                if let Some(a) = c["kids"].as_array() { for x in a { let i = x.as_u64().unwrap_or(0) as usize; if i > 0 && i < kids.len() && !ks.contains(&i) { ks.push(i); } } }
+                for i in ks {
+                    let v = kids[i].ask(&c2, 40);
+                    if v.get("lost").is_some() { return None; }
+                    if let Some(m) = v["runs"].as_object() { for (a, b) in m { nruns.insert(a.clone(), b.clone()); } }
+                }
+                out["neutral"] = json!({"no_int_null": Value::Object(nruns)});
+            }
+            Some(out)
         }
-        _ => json!({"bad_case": true}),
+        _ => Some(json!({"bad_case": true})),
     }
 }
 
@@ -403,14 +457,16 @@ pub fn main(o: &Opts) {
     if o.get_usize("child", 0) == 1 { child_main(); return; }
     let mut kids: Vec<Kid> = CHILDREN.iter().map(|(t, w)| spawn_kid(*t, *w)).collect();
     if let Some(p) = &o.replay {
-        for c in replay_cases(p) { let i = run_case(&mut kids, &c); emit(c, i); }
+        for c in replay_cases(p) { if let Some(i) = run_case(&mut kids, &c, None) { emit(c, i); } }
     } else {
         let mut r = Rng::new(o.seed ^ 0xC07);
         // generator options of the sql kind: multi-partition table 0, the strata whose clean behaviour was probed in DESIGN A.23
         let mut kv = o.kv.clone();
         kv.entry("multi".into()).or_insert("1".into());
-        kv.entry("sizes".into()).or_insert("tiny,small,mid,big".into());
+        // table 0 is the multi-partition one (>= 1000 rows in >= 2 batches); the others stay small so that joins cannot explode
+        kv.entry("sizes".into()).or_insert("tiny,small,small".into());
         kv.entry("batches".into()).or_insert("9".into());
+        kv.entry("deny".into()).or_insert("cross_join".into());
         let o2 = Opts { seed: o.seed, cases: o.cases, replay: None, kv };
         let gopts = GenOpts::from_opts(&o2, "filter,join,agg,distinct,setop,sort_limit,cte,subquery");
         let copts = CatOpts::from_opts(&o2);
@@ -420,6 +476,7 @@ pub fn main(o: &Opts) {
             attempts += 1;
             let kinds = o.get("kinds").unwrap_or("all");
             let slot = match kinds { "scan" => 0, "tracker" => 2, "ojoin" => 3, "sql" => 5, _ => n % 10 };
+            let mut pre_answer: Option<Value> = None;
             let c = match slot {
                 0 | 1 => gen_scan(&mut r),
                 2 => gen_tracker(&mut r),
@@ -433,16 +490,17 @@ pub fn main(o: &Opts) {
                     let mut case = make_case("C07", &cat, &g.q, &g.tags, g.engine_defined, &[ExecCfg::mem_single()], true);
                     case["kind"] = json!("sql");
                     case["recut"] = json!(*r.pick(&[2u64, 3, 7, 16, 40]));
-                    // pre-flight on the single-batch layout in the 1-thread child: skip statements that fail there or are huge
-                    let pre = kids[0].ask(&case);
+                    let mut others = vec![1u64, 2, 3, 4]; r.shuffle(&mut others);
+                    case["kids"] = json!([others[0], others[1]]);
+                    // pre-flight on the single-batch layout in the 1-thread child (10 s, 4 GB): skip statements that fail there or are huge
+                    let pre = kids[0].ask(&case, 10);
                     let ok_rows = pre["runs"].as_object().and_then(|m| m.iter().find(|(k, _)| k.starts_with("mem1@"))).and_then(|(_, v)| v["ok"].as_array().map(|a| a.len()));
                     match ok_rows { Some(rows) if rows <= MAX_ROWS_OUT => {} _ => continue }
+                    pre_answer = Some(pre);
                     case
                 }
             };
-            let i = run_case(&mut kids, &c);
-            emit(c, i);
-            n += 1;
+            if let Some(i) = run_case(&mut kids, &c, pre_answer) { emit(c, i); n += 1; }
         }
     }
     for k in kids.iter_mut() { let _ = k.proc.kill(); let _ = k.proc.wait(); }
